@@ -14,6 +14,7 @@ import (
 	"github.com/NethermindEth/juno/core"
 	"github.com/NethermindEth/juno/core/felt"
 	"github.com/NethermindEth/juno/db"
+	"github.com/NethermindEth/juno/db/memory"
 	"github.com/NethermindEth/juno/db/pebblev2"
 	"verif/harness/lib"
 )
@@ -41,6 +42,7 @@ type node struct {
 	newSt bool
 	bc    *blockchain.Blockchain
 	store db.KeyValueStore
+	fault *faultDB // destinations only
 	dir   string
 }
 
@@ -75,6 +77,9 @@ type Engine struct {
 	stats    map[string]int
 	onCheck  func()
 	full     bool // read every view completely (replay / shrinking)
+	held     map[string][]*heldReader
+	lastOp   string
+	baseSeen map[string]bool
 }
 
 var versions = []string{"0.13.2", "0.13.4", "0.14.0", "0.14.1"}
@@ -84,7 +89,7 @@ func NewEngine(cfg Config, r *lib.RNG, driverPath, scratch string, res *lib.Resu
 	opt.NoClasses = true // declarations are generated here (own fixtures, rebuilt from the hash on replay)
 	g := lib.NewChainGen(r, cfg.SrcNew, opt)
 	e := &Engine{cfg: cfg, g: g, res: res, drained: map[felt.Felt]bool{}, stale: map[felt.Felt]map[felt.Felt]felt.Felt{}, seen: map[string]bool{},
-		scratch: scratch, stats: map[string]int{}}
+		scratch: scratch, stats: map[string]int{}, held: map[string][]*heldReader{}, baseSeen: map[string]bool{}}
 	e.u = newUniverse(g)
 	e.nodes = append(e.nodes, &node{name: "src", kind: kindName(cfg.SrcNew), newSt: cfg.SrcNew, bc: g.Src, store: g.SrcDB})
 	for i, ns := range cfg.Dst {
@@ -98,11 +103,12 @@ func NewEngine(cfg Config, r *lib.RNG, driverPath, scratch string, res *lib.Resu
 			if err != nil {
 				return nil, err
 			}
-			n.dir, n.store = dir, st
-			n.bc = lib.NodeOn(st, g.Net, ns)
+			n.dir, n.fault = dir, newFaultDB(st)
 		} else {
-			n.bc, n.store = lib.NewNode(g.Net, ns)
+			n.fault = newFaultDB(memory.New())
 		}
+		n.store = n.fault
+		n.bc = lib.NodeOn(n.store, g.Net, ns)
 		e.nodes = append(e.nodes, n)
 	}
 	if driverPath != "" {
@@ -114,11 +120,11 @@ func NewEngine(cfg Config, r *lib.RNG, driverPath, scratch string, res *lib.Resu
 		if err := e.sendUniverse(); err != nil {
 			return nil, err
 		}
-		lf, sp := probeVariant()
+		lf, sp, ho := probeVariant()
 		for _, c := range []struct {
 			name string
 			on   bool
-		}{{"leaffix", lf}, {"sysprobefix", sp}} {
+		}{{"leaffix", lf}, {"sysprobefix", sp}, {"historderfix", ho}} {
 			flag := "0"
 			if c.on {
 				flag = "1"
@@ -228,7 +234,8 @@ func (e *Engine) Store(d *Desc) {
 	}
 	prev := e.g.HeadState()
 	em, dr := drains(prev, d.Diff)
-	e.steps = append(e.steps, Step{Op: "store", Version: d.Version, Diff: encodeDiff(d.Diff)})
+	e.steps = append(e.steps, Step{Op: "store", Version: d.Version, Diff: encodeDesc(d)})
+	e.lastOp = "store"
 	c := d.clone()
 	b, err := e.g.Next(&lib.BlockSpec{Version: c.Version, Diff: c.Diff, Classes: c.Classes, NoTxs: true})
 	if err != nil {
@@ -299,6 +306,7 @@ func (e *Engine) Revert() {
 		return
 	}
 	e.steps = append(e.steps, Step{Op: "revert"})
+	e.lastOp = "revert"
 	head := e.g.Head()
 	for i, n := range e.nodes {
 		var rerr error
@@ -359,6 +367,14 @@ func (e *Engine) Apply(s Step) error {
 			return errors.New("revert on an empty chain")
 		}
 		e.Revert()
+	case "revert-dropped":
+		e.Discard(s.Op, nil)
+	case "simulate", "store-dropped", "store-late-fail", "store-wrong-root":
+		d, err := decodeDiff(s.Version, s.Diff)
+		if err != nil {
+			return err
+		}
+		e.Discard(s.Op, d)
 	default:
 		return fmt.Errorf("unknown op %q", s.Op)
 	}
@@ -378,13 +394,14 @@ var (
 	probeOnce   sync.Once
 	leafFixVal  bool
 	sysProbeVal bool
+	histOrdVal  bool
 )
 
 // probeVariant probes the real code once: which variant of the new backend is in the tree (the Lean
 // model has both, see Cfg in Model.lean). Witnesses: (leafFix) delete a slot whose sibling slot
 // (k xor 1) is set and read it at the head; (sysProbeFix) empty the storage of a system contract
 // and read the earlier block.
-func probeVariant() (leafFix, sysProbeFix bool) {
+func probeVariant() (leafFix, sysProbeFix, histOrderFix bool) {
 	probeOnce.Do(func() {
 		run := func(lines []string) *lib.ChainGen {
 			g := lib.NewChainGen(lib.NewRNG(1), true, lib.DefaultGenOptions())
@@ -411,6 +428,12 @@ func probeVariant() (leafFix, sysProbeFix bool) {
 				sysProbeVal = err == nil && v.Equal(lib.F(5))
 			}
 		}
+		if g := run([]string{"d 104 c000", "d 106 c000 r 106 c003"}); g != nil {
+			if r, _, err := g.Src.StateAtBlockNumber(1); err == nil {
+				v, err := r.ContractClassHash(lib.F(0x106))
+				histOrdVal = err == nil && v.Equal(lib.F(0xc003))
+			}
+		}
 	})
-	return leafFixVal, sysProbeVal
+	return leafFixVal, sysProbeVal, histOrdVal
 }
